@@ -3,6 +3,7 @@ import BumpVerif.Proofs.VecFilter
 import BumpVerif.Proofs.VecDrain
 import BumpVerif.Proofs.VecExtend
 import BumpVerif.Proofs.VecResize
+import BumpVerif.Proofs.VecSplice
 /-!
 # C16 (Vec part) — a panicking callback never causes double drops
 
@@ -23,9 +24,9 @@ predicate may panic inside a caller's `next()` or inside the destructor, and a y
 destructor may panic), `retain`, `truncate`, `clear`, `drop` (panicking destructors).
 `into_iter` / `drain` dropped with panicking destructors, `dedup_by(_key)` (panicking comparison /
 key function), `extend` and `from_iter_in`/`collect_in` (panicking iterator), `resize`,
-`extend_from_slice` and `clone` (panicking `Clone`).  NOT proved here (covered by the
-panic-injection run — drop-ledger oracle + model comparison — only): splice with a panicking
-iterator, vec!.
+`extend_from_slice` and `clone` (panicking `Clone`), `splice` (iterator panicking at any `next`
+call — inside `fill`, inside the second `fill` after `move_tail`, inside the collection of the
+remainder — and/or a destructor of the drained range panicking), `vec![elem; n]` (panicking `Clone`).
 
 History: on the pinned tree the `drain_filter` statement was false (F5): with
 `xs = [0,1,2,3,4,5]`, "remove evens", predicate panicking at index 3 inside the caller's third
@@ -116,6 +117,53 @@ theorem C16_clone {c : Cfg} {v : VS} {xs : List Elem} {ins held : List Nat} (hc 
     ∃ ys ins', (∀ nv, (cloneVec c v w).1 = some nv → RepB c nv ys) ∧ ((cloneVec c v w).1 = none → ys = []) ∧
       Own ins' (xs ++ ys) (cloneVec c v w).2.evs held ∧ Fresh ins' (cloneVec c v w).2.nextId := cloneVec_own hc hd hf h w ho hfr
 
+/-- `splice(range, iter)` with an iterator that reports any `size_hint` and panics at any `next` call
+(`src.panicAt` arbitrary), destructors that may panic (`c.dropPanicAt` arbitrary), an arena that may
+refuse the growth: after the unwinding — `Splice::drop`'s body is left where the panic struck, then
+`Drain::drop` moves the tail back behind what was filled in, then the iterator is dropped — nothing
+is reachable twice, nothing dropped is reachable, nothing is dropped twice, nothing leaks -/
+theorem C16_splice {c : Cfg} {v : VS} {xs : List Elem} {ins held : List Nat} (hc : CfgOK c) (hd : c.needsDrop = true)
+    (h : RepB c v xs) (s e : Bd) (src : Src) (take : Nat) (w : W) (ho : Own ins xs w.evs (ids src.items ++ held)) :
+    ∃ ys, RepB c (spliceOp c v s e (.src src) take w).1 ys ∧ Own ins ys (spliceOp c v s e (.src src) take w).2.1.evs held :=
+  spliceOp_own hc hd h s e src take w ho
+
+/-- where the elements are after a `splice` whose iterator panicked: the vector is
+`xs.take st ++ items.take j ++ xs.drop en` for the `j` items written before the panic — the tail is
+always moved back, there is no hole and no stale copy inside `len` — and the other items have been
+dropped, in order -/
+theorem C16_splice_contents {c : Cfg} (hc : CfgOK c) {v : VS} {xs : List Elem} (h : RepB c v xs) {s e : Bd} {st en : Nat}
+    (hok : DrainOK c xs.length s e st en) (src : Src) (take : Nat) (w : W) :
+    ∃ (j : Nat) (ys : List Elem), j ≤ src.items.length ∧ ys = xs.take st ++ src.items.take j ++ xs.drop en ∧
+      RepB c (spliceOp c v s e (.src src) take w).1 ys ∧
+      (spliceOp c v s e (.src src) take w).2.1.evs = w.evs ++ movedEvs ((xs.drop st).take (min take (en - st))) ++
+        dropEvs c ((xs.drop (st + min take (en - st))).take (en - (st + min take (en - st)))) ++ dropEvs c (src.items.drop j) ∧
+      ((spliceOp c v s e (.src src) take w).2.2 ≠ none → j = src.items.length) := by
+  obtain ⟨j, v', w', r, hrun, hj, hrep, hev, _, _, hres, _⟩ := spliceOp_spec hc 0 h hok src take w
+  rw [hrun]
+  refine ⟨j, _, hj, rfl, hrep, hev, ?_⟩
+  intro hne
+  cases r with
+  | none => exact absurd rfl hne
+  | some m => exact (hres m rfl).2
+
+/-- `vec![in b; elem; n]` with a `Clone` that panics at any call: see `C15_vec_macro_n` -/
+theorem C16_vec_macro_n {c : Cfg} {ins held : List Nat} (hc : CfgOK c) (hd : c.needsDrop = true) (hf : c.freshClone = true)
+    (x : Elem) (n : Nat) (hnU : n < USIZE) (w : W) (ho : Own ins [] w.evs (x.id :: held)) (hfr : Fresh ins w.nextId) :
+    ∃ ys ins', (∀ v', (vmacroN c x n w).1 = some v' → RepB c v' ys) ∧ ((vmacroN c x n w).1 = none → ys = []) ∧
+      Own ins' ys (vmacroN c x n w).2.1.evs (if (vmacroN c x n w).2.2 then held else x.id :: held) ∧
+      Fresh ins' (vmacroN c x n w).2.1.nextId :=
+  vmacroN_own hc hd hf x n hnU w ho hfr
+
+/-- a concrete unwinding: `[1,2,3,4].splice(1..3, iter)` where `iter` would yield `7,8,9` with
+`size_hint` 3 and panics on its third `next` call (index 2, inside the second `fill`, after
+`move_tail(1)`): the vector is `[1,7,8,4]` (tail moved back), `2` and `3` were dropped (nobody took
+them), `9` is dropped with the iterator, nothing twice -/
+theorem C16_splice_regression :
+    let xs : List Elem := [⟨1, 1⟩, ⟨2, 2⟩, ⟨3, 3⟩, ⟨4, 4⟩]
+    let r := spliceOp {} ⟨xs.map some, 4, 4⟩ (.inc 1) (.exc 3) (.src ⟨[⟨7, 7⟩, ⟨8, 8⟩, ⟨9, 9⟩], 3, 0, 0, some 2⟩) 0 {}
+    r.1.owned.map (·.id) = [1, 7, 8, 4] ∧ r.2.1.evs = [.drop 2, .drop 3, .drop 9] ∧ r.2.2 = none := by
+  decide
+
 /-- the "drop the container afterwards" continuation, for any state satisfying the invariant:
 no id is dropped twice, nothing moved out is dropped, what is neither dropped nor moved is
 exactly what leaked or is held elsewhere -/
@@ -157,3 +205,7 @@ end Bump.V.C16
 #print axioms Bump.V.C16.C16_resize
 #print axioms Bump.V.C16.C16_extend_from_slice
 #print axioms Bump.V.C16.C16_clone
+#print axioms Bump.V.C16.C16_splice
+#print axioms Bump.V.C16.C16_splice_contents
+#print axioms Bump.V.C16.C16_vec_macro_n
+#print axioms Bump.V.C16.C16_splice_regression
